@@ -25,6 +25,9 @@ var mslConfigs = []mslConfig{
 		BoundsCheckPolicies: msl.BoundsCheckPolicies{Index: msl.BoundsCheckReadZeroSkipWrite, Buffer: msl.BoundsCheckReadZeroSkipWrite}}, "fake"},
 	{"1.2 map restrict", msl.Options{LangVersion: msl.Version1_2,
 		BoundsCheckPolicies: msl.BoundsCheckPolicies{Index: msl.BoundsCheckRestrict, Buffer: msl.BoundsCheckRestrict}}, "map"},
+	{"2.4 auto restrict zero-wg", msl.Options{LangVersion: msl.Version2_4, ZeroInitializeWorkgroupMemory: true,
+		BoundsCheckPolicies: msl.BoundsCheckPolicies{Index: msl.BoundsCheckRestrict, Buffer: msl.BoundsCheckUnchecked}}, "auto"},
+	{"2.0 fake unchecked loop-bound", msl.Options{LangVersion: msl.Version2_0, FakeMissingBindings: true, ForceLoopBounding: true}, "fake"},
 	{"3.1 map rzsw loop-bound", msl.Options{LangVersion: msl.Version3_1, ForceLoopBounding: true, ZeroInitializeWorkgroupMemory: true,
 		BoundsCheckPolicies: msl.BoundsCheckPolicies{Index: msl.BoundsCheckReadZeroSkipWrite, Buffer: msl.BoundsCheckRestrict}}, "map"},
 }
@@ -249,7 +252,7 @@ func runNagaCasesMSL(t *testing.T, cases []nagaCase, defects mslDefects) {
 						}
 					}
 					switch {
-					case strings.HasPrefix(problem, "parse: unsupported") && mslUnsupportedOK[c.name] != "" && strings.Contains(problem, mslUnsupportedOK[c.name]):
+					case (strings.HasPrefix(problem, "parse: unsupported") || strings.HasPrefix(problem, "run: unsupported")) && mslUnsupportedOK[c.name] != "" && strings.Contains(problem, mslUnsupportedOK[c.name]):
 						if !rev {
 							t.Logf("[%s] not modelled (counted, never a violation): %s", mc.name, problem)
 						}
